@@ -181,10 +181,10 @@ var Catalogue = []struct {
 }
 
 // Closure returns a function literal (registered through CallOverrideFN): its runtime
-// name is <package>.Closure.func1.
-func Closure() any {
+// name is <package>.Closure.func1. Every call makes a new instance that reports its tag.
+func Closure(tag string) any {
 	return func(a types.MalType, xs ...types.MalType) (types.MalType, error) {
-		enter("closure", nil, false, append([]types.MalType{a}, xs...)...)
+		enter("closure:"+tag, nil, false, append([]types.MalType{a}, xs...)...)
 		return res2("r")
 	}
 }
